@@ -271,13 +271,13 @@ def build_bytes_from_sse(event: ServerSentEvent, charset: str) -> bytes:
     if "data" in event:
         data = (
             f"data: {_}".encode(charset)
-            for _ in re.split("\r\n|\r|\n", event.pop("data"))
+            for _ in re.split("\r\n|\r|\n", event["data"])
         )
     else:
         data = ()
     return b"\n".join(
         chain(
-            map(lambda k, v: f"{k}: {v}".encode(charset), event.keys(), event.values()),
+            (f"{k}: {v}".encode(charset) for k, v in event.items() if k != "data"),
             data,
             (b"", b""),  # for generate b"\n\n"
         )
